@@ -2,7 +2,6 @@ package main
 
 import (
 	"fmt"
-	"sort"
 	"strings"
 )
 
@@ -123,11 +122,29 @@ func pairRounds() [][][2]string {
 // namingSchema builds one schema holding all atoms. Neutral helper names are lower-case
 // letter+digit words that no pattern normalises to.
 func namingSchema(atoms []Atom) string {
+	s, _ := namingSchemaSlots(atoms)
+	return s
+}
+
+// Slot says which type-position name the root fields q<K> / ql<K> refer to.
+type Slot struct {
+	K    int
+	Pos  string
+	Name string
+}
+
+func namingSchemaSlots(atoms []Atom) (string, []Slot) {
+	var slots []Slot
 	var b strings.Builder
 	b.WriteString(goDirectives)
 	var q []string // Query fields
 	n := 0
 	next := func() int { n++; return n }
+	slot := func(pos, name string) int {
+		k := next()
+		slots = append(slots, Slot{k, pos, name})
+		return k
+	}
 	byPos := map[string][]Atom{}
 	for _, a := range atoms {
 		byPos[a.Pos] = append(byPos[a.Pos], a)
@@ -140,32 +157,32 @@ func namingSchema(atoms []Atom) string {
 		return out
 	}
 	for _, nm := range names(byPos["type-object"]) {
-		k := next()
+		k := slot("type-object", nm)
 		fmt.Fprintf(&b, "type %s { v: String w(a: Int): %s }\n", nm, nm)
 		q = append(q, fmt.Sprintf("q%d: %s", k, nm), fmt.Sprintf("ql%d: [%s!]", k, nm))
 	}
 	for _, nm := range names(byPos["type-input"]) {
-		k := next()
+		k := slot("type-input", nm)
 		fmt.Fprintf(&b, "input %s { v: String w: %s }\n", nm, nm)
 		q = append(q, fmt.Sprintf("q%d(a: %s, b: [%s!]): String", k, nm, nm))
 	}
 	for _, nm := range names(byPos["type-enum"]) {
-		k := next()
+		k := slot("type-enum", nm)
 		fmt.Fprintf(&b, "enum %s { V1 V2 }\n", nm)
 		q = append(q, fmt.Sprintf("q%d(a: %s = V1, b: [%s!]): %s", k, nm, nm, nm))
 	}
 	for _, nm := range names(byPos["type-interface"]) {
-		k := next()
+		k := slot("type-interface", nm)
 		fmt.Fprintf(&b, "interface %s { v: String }\ntype Impl%d implements %s { v: String }\n", nm, k, nm)
 		q = append(q, fmt.Sprintf("q%d: %s", k, nm), fmt.Sprintf("ql%d: [%s]", k, nm))
 	}
 	for _, nm := range names(byPos["type-union"]) {
-		k := next()
+		k := slot("type-union", nm)
 		fmt.Fprintf(&b, "union %s = Member%d\ntype Member%d { v: String }\n", nm, k, k)
 		q = append(q, fmt.Sprintf("q%d: %s", k, nm), fmt.Sprintf("ql%d: [%s!]!", k, nm))
 	}
 	for _, nm := range names(byPos["type-scalar"]) {
-		k := next()
+		k := slot("type-scalar", nm)
 		fmt.Fprintf(&b, "scalar %s\n", nm)
 		q = append(q, fmt.Sprintf("q%d(a: %s, b: [%s]): %s", k, nm, nm, nm))
 	}
@@ -235,7 +252,7 @@ func namingSchema(atoms []Atom) string {
 		q = append(q, "q0: String")
 	}
 	fmt.Fprintf(&b, "type Query {\n  %s\n}\n", strings.Join(q, "\n  "))
-	return b.String()
+	return b.String(), slots
 }
 
 // NamingProject is a packed set of atoms generated as one project.
@@ -289,6 +306,5 @@ func namingProjects(full bool) []NamingProject {
 			out = append(out, NamingProject{fmt.Sprintf("naming-pairs-%s-r%d", pos, ri), atoms})
 		}
 	}
-	sort.SliceStable(out, func(i, j int) bool { return false })
 	return out
 }
